@@ -38,6 +38,41 @@ func genSysProgram(t *rapid.T) SProgram {
 			p.Ops = append(p.Ops, wr("p"))
 		}
 	}
+	if rf == 3 && rapid.IntRange(0, 2).Draw(t, "overlap") == 0 {
+		// overlapping absences: c leaves, the volume goes on (c's head goes stale),
+		// b leaves and is rebuilt (the healthy replica's head, new data included,
+		// becomes a snapshot), then c comes back - mostly with nothing written in
+		// between, so that the snapshot taken for c's return is empty on the
+		// healthy replica and is c's stale head on c
+		if len(p.Ops) == 0 || p.Ops[0].Len != total {
+			p.Ops = append([]SOp{{K: "write", Off: 0, Len: total, Seed: rapid.IntRange(1, 250).Draw(t, "fillseed2")}}, p.Ops...)
+		}
+		perm := rapid.Permutation(seqInts(nodes)).Draw(t, "bc")
+		b, c := perm[0], perm[1]
+		leave := func(n int) SOp {
+			return SOp{K: rapid.SampledFrom([]string{"remove", "nodedrop"}).Draw(t, "leave"), Node: n}
+		}
+		p.Ops = append(p.Ops, leave(c))
+		for k := rapid.IntRange(1, 3).Draw(t, "awaywrites"); k > 0; k-- {
+			p.Ops = append(p.Ops, wr("a"))
+		}
+		p.Ops = append(p.Ops, leave(b))
+		quiet := rapid.IntRange(0, 2).Draw(t, "quiet") > 0
+		fg := func() int64 {
+			if quiet {
+				return 0
+			}
+			return int64(rapid.IntRange(0, 6).Draw(t, "fgwrites"))
+		}
+		p.Ops = append(p.Ops, SOp{K: "sysrebuild", Node: b, N: fg(), Seed: rapid.IntRange(1, 5000).Draw(t, "seed"), Reps: rapid.IntRange(0, 1).Draw(t, "aligned")})
+		if !quiet && rapid.Bool().Draw(t, "between") {
+			p.Ops = append(p.Ops, wr("b"))
+		}
+		p.Ops = append(p.Ops, SOp{K: "sysrebuild", Node: c, N: fg(), Seed: rapid.IntRange(1, 5000).Draw(t, "seed"), Reps: rapid.IntRange(0, 1).Draw(t, "aligned")})
+		off := rapid.Int64Range(0, total-1).Draw(t, "roff")
+		p.Ops = append(p.Ops, SOp{K: "read", Off: off, Len: rapid.Int64Range(1, min64(total-off, 32)).Draw(t, "rlen"), Reps: 4})
+		return p
+	}
 	rounds := rapid.IntRange(1, 2).Draw(t, "rounds")
 	for r := 0; r < rounds; r++ {
 		n := rapid.IntRange(0, nodes-1).Draw(t, "target")
